@@ -100,9 +100,13 @@ def cls(kind, feat):
     return "%s|%s|%s|%s|na=%s" % (kind, feat["form"], feat["op"], feat.get("variant", "")[:12], feat["non_ascii_alias"])
 
 
+ZONE_NAMES = set()
+
+
 def run(rep):
     quick = rep.tier == "quick"
     render.check_pool_words()
+    ZONE_NAMES.update(k.upper() for k in render.config_json().get("timezones", {}))
     rep.rule = ("TLC enumerates money literals (5 amounts x every rated currency), conversions over all ordered pairs of rated currencies x 2 amounts under the configured rates, "
                 "conversions and arithmetic over 4 currencies under exact rates set through update_currency, and every history of 3 (thorough 4) calls over "
                 "update_currency(code | alias | unknown, 4 rates) and 4 evaluated lines. A case = one line in one spelling (symbol before / after, code, CODE, glued, alias word, "
@@ -130,6 +134,8 @@ def run(rep):
         rs = renderings(line, cfg, gi, gi % 11 == 0)
         if len(c["pre"]) == 1:
             rs = rs[:1]          # the rate-frame family (one update, then a conversion): one spelling each
+            if line.get("target", "").upper() in ZONE_NAMES:
+                continue         # Appendix B: a conversion target that is also a zone name (tmt, wst ...) is read as the zone
         for var, text in rs:
             items.append({"line": line, "text": text, "cfg": cfg, "lang": "en", "expected": c["expected"], "variant": var, "pre": pre,
                           "feat": feat_of(line, text), "class_fn": cls, "nontrivial": two})
